@@ -1,7 +1,7 @@
 package c02
 
 // Scope "many-materials": SplitOnUniqueMaterials on a mesh whose every triangle has a material of
-// its own (odd triangles with vertices of their own, even ones sharing a vertex with the next even one) — 3, 255, 256, 257, 65535, 65536 and 65537 materials.  Every returned mesh must be
+// its own (a strip; the last four triangles with vertices of their own) — 3, 255, 256, 257, 65535, 65536 and 65537 materials.  Every returned mesh must be
 // well-formed and the triangles must add up.  (Counts around the widths a per-vertex tag, a packed key
 // or an id table may be stored in; the small scopes have at most three materials.)
 
@@ -18,18 +18,23 @@ import (
 func (k checker) manyMaterials(n int) {
 	cs := Case{Kind: "many-materials", N: n}
 	scope := "ops/SplitOnUniqueMaterials/many-materials"
-	// odd triangles have three vertices of their own, even ones share an edge with the next even one
-	pos := make([]vector3.Float64, 3*n+6)
+	// a strip (neighbouring triangles share vertices); the last four triangles have vertices of their
+	// own (the library's cost grows with materials x vertices, so the vertex count is kept near n)
+	pos := make([]vector3.Float64, n+2+12)
 	for i := range pos {
 		pos[i] = vector3.New(float64(i), float64(i%2), 0.25*float64(i%5))
 	}
 	idx := make([]int, 0, 3*n)
 	mats := make([]modeling.MeshMaterial, n)
 	for t := 0; t < n; t++ {
-		if t%2 == 0 {
-			idx = append(idx, 3*t, 3*t+1, 3*t+6)
-		} else {
-			idx = append(idx, 3*t+1, 3*t, 3*t+2)
+		switch {
+		case t >= n-4 && n > 8:
+			b := n + 2 + 3*(t-(n-4))
+			idx = append(idx, b, b+1, b+2)
+		case t%2 == 0:
+			idx = append(idx, t, t+1, t+2)
+		default:
+			idx = append(idx, t+1, t, t+2)
 		}
 		mats[t] = modeling.MeshMaterial{PrimitiveCount: 1, Material: &modeling.Material{Name: fmt.Sprintf("m%d", t)}}
 	}
